@@ -20,7 +20,11 @@ COND_KINDS = ["header", "header", "nothdr", "exists", "notexists", "size", "enve
 
 
 def gen_action(t, r):
-    k = r.choice(["fileinto", "fileinto-copy", "fileinto-create", "redirect", "redirect-copy", "reject", "keep", "discard", "stop", "setflag", "addflag", "vacation"])
+    k = r.choice(["fileinto", "fileinto-copy", "fileinto-create", "redirect", "redirect-copy", "reject", "keep", "discard", "stop", "setflag", "addflag", "vacation",
+                  "removeflag", "setflag-var", "addflag-var", "removeflag-var"])
+    if k.endswith("-var"):
+        # the two-string form of the flag actions: the name of a variable, then the flag
+        return (k[:-4], t.hole(), t.hole())
     if k == "fileinto":
         return ("fileinto", t.hole())
     if k == "fileinto-copy":
